@@ -2146,7 +2146,10 @@ def G_rules(ctx, rule="G"):
                   "GraphInfo == compares node weights and (source, target, weight) of every edge",
                   "GraphInfo == compares only %s" % sorted(attrs))
         # every pairwise comparison is a conjunction starting from `true` (two empty sequences are equal)
-        from rules_build import conjunctive_consumer, iter_eq_same_projection
+        from rules_build import conjunctive_consumer, iter_eq_same_projection, eq_same_attribute, eq_monotone
+        eq_same_attribute(ctx, rule + "5", eqb, "GraphInfo ==")
+        eq_monotone(ctx, rule + "5", eqb, "GraphInfo ==", [(bx.id, bb) for bx in m.reach_bodies(eqb.id) for bb, t in bx.calls()
+                                                          if callee_path(t) in ("std::iter::Iterator::eq", "std::iter::Iterator::all")])
         n_ie = 0
         for bx in m.reach_bodies(eqb.id):
             for bb, t in bx.calls():
